@@ -3,6 +3,7 @@ package main
 import (
 	"fmt"
 	"go/token"
+	"go/types"
 	"os"
 	"strings"
 
@@ -39,7 +40,7 @@ func coreContracts() map[string]*ZContract {
 			{Guard: 'F', GI: 2, Cons: []ZC{le(zr(0), zz, -1), le(zr(1), zz, -1)}},
 			{Guard: 'P', GI: 1, Cons: []ZC{le(zr(0), zr(1), 0)}}}},
 		"(*core.Line).SelectWord":      {Ensures: []ZEnsure{{Cons: []ZC{le(zz, zr(0), 0), le(zz, zr(1), 0)}}}},
-		"(*core.Line).SelectBlankWord": {Ensures: []ZEnsure{{Cons: []ZC{le(zz, zr(0), 0), le(zz, zr(1), 0)}}}},
+		"(*core.Line).SelectBlankWord": {Ensures: []ZEnsure{{Cons: []ZC{le(zz, zr(0), 0), le(zz, zr(1), 0), le(zr(0), zh(0), 0), le(zr(1), zh(0), 0)}}}},
 		"(*core.Selection).Pos":        {Ensures: []ZEnsure{{Cons: []ZC{le(zz, zr(0), 1), le(zz, zr(1), 1), le(zr(0), zo(0), 0), le(zr(1), zo(0), 0), le(zr(0), zr(1), 0)}}}},
 		// lemma (see DESIGN.md §13): a command runs after the dispatcher matched at least one key (MatchedKeys / MatchedPrefix store a non-empty slice)
 		"(*core.Keys).Caller": {Trusted: true, Ensures: []ZEnsure{{Cons: []ZC{le(zz, zm(0), -1)}}}},
@@ -51,6 +52,13 @@ func coreContracts() map[string]*ZContract {
 		"(*core.Line).Tokenize$bound":      {Ensures: []ZEnsure{{Cons: []ZC{le(zz, zr(1), 0)}}, {Guard: 'L', GI: 0, Cons: []ZC{le(zr(1), zm(0), -1)}}}},
 		"(*core.Line).TokenizeSpace$bound": {Ensures: []ZEnsure{{Cons: []ZC{le(zz, zr(1), 0)}}, {Guard: 'L', GI: 0, Cons: []ZC{le(zr(1), zm(0), -1)}}}},
 		"(*core.Line).TokenizeBlock$bound": {Ensures: []ZEnsure{{Cons: []ZC{le(zz, zr(1), 0)}}, {Guard: 'L', GI: 0, Cons: []ZC{le(zr(1), zm(0), -1)}}}},
+		// strutil helpers take a position inside the line they are given
+		"strutil.AdjustNumberOperatorPos": {Requires: []ZC{le(zz, zp(0), 0), le(zp(0), zl(1), 0)}},
+		"strutil.lineSlice":               {Requires: []ZC{le(zz, zp(1), 0), le(zp(1), zl(0), 0)}},
+		// the keys matched are among the keys read (one is appended to matched only after it was appended to read)
+		"(*keymap.Engine).dispatchKeys": {Ensures: []ZEnsure{{Cons: []ZC{le(zm(3), zm(2), 0)}}}},
+		// history.contains returns the range index of the element found
+		"history.contains": {Ensures: []ZEnsure{{Guard: 'T', GI: 0, Cons: []ZC{le(zz, zr(1), 0), le(zr(1), zl(0), -1)}}}},
 		// standard library results
 		"unicode/utf8.DecodeRuneInString":     {Ensures: []ZEnsure{{Cons: []ZC{le(zz, zr(1), 0), le(zr(1), zl(0), 0)}}}},
 		"unicode/utf8.DecodeRune":             {Ensures: []ZEnsure{{Cons: []ZC{le(zz, zr(1), 0), le(zr(1), zl(0), 0)}}}},
@@ -394,44 +402,91 @@ func (z *zoneEngine) getterEqualities(fn *ssa.Function) map[*ssa.Call]*ssa.Call 
 // values returned by callbacks). One line of reason each; everything else must
 // be proved. Key = function:kind#ordinal as printed by the rule.
 var reviewedNonneg = map[string]string{
-	"(*core.Line).checkRange:postcondition#4":       "epos >= 0 here means the reordering test `epos > -1 && epos < bpos` ran with epos > -1: either it swapped (bpos < epos) or epos >= bpos already; the phis of the swap hide it from the domain",
-	"(*core.Selection).Pos:postcondition#19":        "after selectToCursor / the visual increment epos >= 0, so the second checkRange reorders: bpos <= epos",
-	"(*core.Selection).checkRange:postcondition#12": "bpos < 0 implies epos >= 0 here (both negative returned invalid above), so the swapped bpos is >= 0",
-	"(*core.Selection).checkRange:postcondition#14": "same argument on the reordering return",
-	"(*core.Selection).checkRange:postcondition#18": "the final `bpos > epos && epos != -1` swap orders them whenever epos >= 0",
-	"(*core.Keys).extractCursorPos:index#0":         "rxRcvCursorPos.Match(keys) held just above, so FindAll with the same expression returns at least one match",
-	"(*core.Line).TokenizeBlock:index#0":            "line is the copy of *l taken at entry and Len() == 0 returned: cpos is clamped into [0, Len] and decremented only when it equals Len >= 1",
-	"(*core.Line).TokenizeBlock:index#1":            "same position as index#0",
-	"(*core.Selection).Pop:slice#0":                 "guarded by `bpos == -1 || epos == -1 → return` two lines above; Selection.Pos returns values >= -1 (the named results are spilled because of the deferred Reset, which the domain does not follow)",
-	"(*core.Selection).SelectAShellWord:index#1":    "cpos comes from AdjustSurroundQuotes / SelectBlankWord (>= -1, and both -1 selects the blank word instead): cpos+1 >= 0",
-	"(*core.Selection).SelectKeyword:slice#0":       "bpos, epos are the blank-word positions the only caller (viSelectKeyword / selection cycling) obtained from SelectBlankWord on the same line (>= 0)",
-	"(*core.Selection).cycleSubgroup:index#0":       "canCycleSubgroup: kmpos < len(groups)-1 before the increment (next), or 1 < kmpos <= len(groups) before the decrement (the upper test was added by fix 57f51af after this entry had been reviewed as safe without it): 1 <= kmpos <= len(groups)-1 at the index; the domain does not forward the store of kmpos to its reload",
-	"(*core.Selection).cycleSubgroup:index#1":       "same: kmpos >= 1",
-	"(*core.Selection).matchKeyword:index#2":        "kpos was wrapped into [1, len(matchersNames)] above and the loop runs while done(kpos): kpos > 0",
-	"(*readline.Shell).keywordSwitch:slice#1":       "bpos >= 0 from SelectWord, obpos is an offset inside the selected word returned by a keyword switcher (>= 0); the `cpos < bpos → continue` test above keeps bpos <= cpos",
-	"(*readline.Shell).magicSpace:slice#0":          "word is non-empty (it starts with \"!\"), so Pop returned a real selection: bpos >= 0",
-	"(*readline.Shell).viChangeTo:index#2":          "surrounds[0] / [1] are the active one-rune surround selections MarkSurround created on valid positions of this line",
-	"(*readline.Shell).viChangeTo:index#3":          "same as index#2",
-	"(*readline.Shell).viSubstitute:index#1":        "OnEmptyLine() returned false and the selection was marked at the cursor on this non-empty line: Pos() is a valid range with epos >= 1 in linewise visual mode",
-	"(*readline.Shell).viSubstitute:precondition#0": "same selection: epos >= 1, so epos-1 >= 0",
-	"(*readline.Shell).viSubstitute:slice#0":        "same selection: bpos >= 0",
-	"(*readline.Shell).viYankWholeLine:slice#0":     "the buffer is not empty (returned above) and the selection was marked at the cursor: Pos() is a valid range, bpos >= 0",
-	"(*core.Cursor).CheckCommand:class#0":           "pos == Len() and OnEmptyLine() is false, which it is not for an empty buffer: Len() >= 1, so pos-1 >= 0",
-	"(*core.Cursor).moveLineDown:class#0":           "private helper of LineMove, which runs CheckCommand right after every call (and CheckAppend when it returns)",
-	"(*core.Cursor).moveLineDown:class#1":           "same",
-	"(*core.Cursor).moveLineUp:class#0":             "same",
-	"(*core.Cursor).moveLineUp:class#1":             "same",
-	"core.CoordinatesCursor:slice#0":                "bpos is 0 or one past the position of a newline found in the line by Line.newlines()",
-	"core.CoordinatesCursor:slice#1":                "same bpos",
-	"core.closeToken:slice#0":                       "pos[count] holds the range index of the opener recorded by openToken (>= 0); idx is a range index of the line",
-	"core.closeToken:slice#2":                       "start is such a recorded index, bumped to 1 when it is 0",
-	"core.closeToken:slice#3":                       "same as slice#0",
-	"core.openToken:slice#0":                        "idx is a range index of the line, bumped to 1 when it is 0",
+	// round 5: the packages added to the scope
+	"(*history.Sources).Current:index#0":               "class invariant of history.Sources maintained by its writers and checked by rule C01.source-pos: names is empty (then list is empty and the function returned above) or 0 <= sourcePos < len(names)",
+	"(*history.Sources).getHistoryLineChanges:index#0": "same invariant (C01.source-pos); Current() returned non-nil just above, so names is not empty",
+	"history.Complete:index#0":                         "same invariant (C01.source-pos); len(h.list) != 0 was tested at entry",
+	"(*history.Sources).Save:slice#0":                  "line.pos was clamped to len(line.items) two statements above, and lineHistory.pos is never negative (every store: 0, len(items), pos+1, or pos-1 under `pos < 1` returned)",
+	"(*history.Sources).Undo:index#2":                  "line.pos was just incremented from a non-negative value and the function returned if it exceeded len(line.items): 1 <= pos <= len(items)",
+	"(*history.Sources).Redo:index#0":                  "pos >= 1 is tested just above; pos <= len(items) is an invariant of lineHistory that is temporal (Save truncates items to len-pos and the deferred Reset zeroes pos unless undoing, which Save never runs under because Undo/Redo set skip with it): NOT a local argument — backed only by the undo/redo triage (4 000 random edit sequences, DESIGN §13)",
+	"color.Trim:slice#0":                               "maxPrintableLength is clamped to >= 0 before the loop, which only adds indices[1]-indices[0] of regexp match pairs (ordered: regexp guarantee), and to <= len(input) just above",
+	"strutil.switchBoolean:slice#0":                    "bpos is indexes[1] of a match of `option` on word: 0 <= bpos <= len(word) (regexp guarantee)",
+	"(*core.Line).SelectBlankWord:postcondition#6":     "bpos starts at pos <= Len-1 (clamped, then decremented when it equals Len) and only decreases: bpos+1 <= Len",
+	"(*core.Line).SelectBlankWord:postcondition#7":     "epos starts at pos <= Len-1 and is incremented only under epos < Len: epos <= Len",
+	"(*core.Line).checkRange:postcondition#4":          "epos >= 0 here means the reordering test `epos > -1 && epos < bpos` ran with epos > -1: either it swapped (bpos < epos) or epos >= bpos already; the phis of the swap hide it from the domain",
+	"(*core.Selection).Pos:postcondition#19":           "after selectToCursor / the visual increment epos >= 0, so the second checkRange reorders: bpos <= epos",
+	"(*core.Selection).checkRange:postcondition#12":    "bpos < 0 implies epos >= 0 here (both negative returned invalid above), so the swapped bpos is >= 0",
+	"(*core.Selection).checkRange:postcondition#14":    "same argument on the reordering return",
+	"(*core.Selection).checkRange:postcondition#18":    "the final `bpos > epos && epos != -1` swap orders them whenever epos >= 0",
+	"(*core.Keys).extractCursorPos:index#0":            "rxRcvCursorPos.Match(keys) held just above, so FindAll with the same expression returns at least one match",
+	"(*core.Line).TokenizeBlock:index#0":               "line is the copy of *l taken at entry and Len() == 0 returned: cpos is clamped into [0, Len] and decremented only when it equals Len >= 1",
+	"(*core.Line).TokenizeBlock:index#1":               "same position as index#0",
+	"(*core.Selection).Pop:slice#0":                    "guarded by `bpos == -1 || epos == -1 → return` two lines above; Selection.Pos returns values >= -1 (the named results are spilled because of the deferred Reset, which the domain does not follow)",
+	"(*core.Selection).SelectAShellWord:index#1":       "cpos comes from AdjustSurroundQuotes / SelectBlankWord (>= -1, and both -1 selects the blank word instead): cpos+1 >= 0",
+	"(*core.Selection).SelectKeyword:slice#0":          "bpos, epos are the blank-word positions the only caller (viSelectKeyword / selection cycling) obtained from SelectBlankWord on the same line (>= 0)",
+	"(*core.Selection).cycleSubgroup:index#0":          "canCycleSubgroup: kmpos < len(groups)-1 before the increment (next), or 1 < kmpos <= len(groups) before the decrement (the upper test was added by fix 57f51af after this entry had been reviewed as safe without it): 1 <= kmpos <= len(groups)-1 at the index; the domain does not forward the store of kmpos to its reload",
+	"(*core.Selection).cycleSubgroup:index#1":          "same: kmpos >= 1",
+	"(*core.Selection).matchKeyword:index#2":           "kpos was wrapped into [1, len(matchersNames)] above and the loop runs while done(kpos): kpos > 0",
+	"(*readline.Shell).keywordSwitch:slice#1":          "bpos >= 0 from SelectWord, obpos is an offset inside the selected word returned by a keyword switcher (>= 0); the `cpos < bpos → continue` test above keeps bpos <= cpos",
+	"(*readline.Shell).magicSpace:slice#0":             "word is non-empty (it starts with \"!\"), so Pop returned a real selection: bpos >= 0",
+	"(*readline.Shell).viChangeTo:index#2":             "surrounds[0] / [1] are the active one-rune surround selections MarkSurround created on valid positions of this line",
+	"(*readline.Shell).viChangeTo:index#3":             "same as index#2",
+	"(*readline.Shell).viSubstitute:index#1":           "OnEmptyLine() returned false and the selection was marked at the cursor on this non-empty line: Pos() is a valid range with epos >= 1 in linewise visual mode",
+	"(*readline.Shell).viSubstitute:precondition#0":    "same selection: epos >= 1, so epos-1 >= 0",
+	"(*readline.Shell).viSubstitute:slice#0":           "same selection: bpos >= 0",
+	"(*readline.Shell).viYankWholeLine:slice#0":        "the buffer is not empty (returned above) and the selection was marked at the cursor: Pos() is a valid range, bpos >= 0",
+	"(*core.Cursor).CheckCommand:class#0":              "pos == Len() and OnEmptyLine() is false, which it is not for an empty buffer: Len() >= 1, so pos-1 >= 0",
+	"(*core.Cursor).moveLineDown:class#0":              "private helper of LineMove, which runs CheckCommand right after every call (and CheckAppend when it returns)",
+	"(*core.Cursor).moveLineDown:class#1":              "same",
+	"(*core.Cursor).moveLineUp:class#0":                "same",
+	"(*core.Cursor).moveLineUp:class#1":                "same",
+	"core.CoordinatesCursor:slice#0":                   "bpos is 0 or one past the position of a newline found in the line by Line.newlines()",
+	"core.CoordinatesCursor:slice#1":                   "same bpos",
+	"core.closeToken:slice#0":                          "pos[count] holds the range index of the opener recorded by openToken (>= 0); idx is a range index of the line",
+	"core.closeToken:slice#2":                          "start is such a recorded index, bumped to 1 when it is 0",
+	"core.closeToken:slice#3":                          "same as slice#0",
+	"core.openToken:slice#0":                           "idx is a range index of the line, bumped to 1 when it is 0",
 }
 
 // reviewedBounds: sites whose upper bound / ordering rests on something the
 // domain cannot express. Same key format as reviewedNonneg.
+const upperProvedTag = "[upper proved] "
+
 var reviewedBounds = map[string]string{
+	// round 5: the packages added to the scope
+	"(*history.Sources).Current:index#0":                 "class invariant of history.Sources maintained by its writers and checked by rule C01.source-pos: names is empty (then list is empty and the function returned above) or 0 <= sourcePos < len(names)",
+	"(*history.Sources).getHistoryLineChanges:index#0":   "same invariant (C01.source-pos); Current() returned non-nil just above, so names is not empty",
+	"history.Complete:index#0":                           "same invariant (C01.source-pos); len(h.list) != 0 was tested at entry",
+	"(*history.Sources).Save:slice#0":                    "line.pos was clamped to len(line.items) two statements above, and lineHistory.pos is never negative (every store: 0, len(items), pos+1, or pos-1 under `pos < 1` returned)",
+	"(*history.Sources).Undo:index#2":                    "line.pos was just incremented from a non-negative value and the function returned if it exceeded len(line.items): 1 <= pos <= len(items)",
+	"(*history.Sources).Redo:index#0":                    "pos >= 1 is tested just above; pos <= len(items) is an invariant of lineHistory that is temporal (Save truncates items to len-pos and the deferred Reset zeroes pos unless undoing, which Save never runs under because Undo/Redo set skip with it): NOT a local argument — backed only by the undo/redo triage (4 000 random edit sequences, DESIGN §13)",
+	"color.Trim:slice#0":                                 "[upper proved] maxPrintableLength is clamped to >= 0 before the loop, which only adds indices[1]-indices[0] of regexp match pairs (ordered: regexp guarantee), and to <= len(input) just above",
+	"strutil.switchBoolean:slice#0":                      "bpos is indexes[1] of a match of `option` on word: 0 <= bpos <= len(word) (regexp guarantee)",
+	"(*display.Engine).hlReset:slice#2":                  "i is a range index of the slice regions had at loop entry; the reslices inside the loop keep its capacity, and a slice expression is bounded by the capacity, not the length: i <= cap(regions)",
+	"(*history.Sources).Add:index#1":                     "len(h.list) == 1 is tested first, and every function that adds to list adds to names (Add), every function that removes from names removes from list (Delete): a non-empty list has a non-empty names",
+	"completion.AutopairDelete:index#0":                  "cur is the cursor of line (the only call site, backwardDeleteChar, passes Shell.line / Shell.cursor, one object triple): 1 <= Pos() <= Len after the `Pos() == 0` return",
+	"strutil.splitWord:slice#1":                          "cur is the suffix of input left after consuming l bytes that DecodeRuneInString just reported: len(input)-len(cur)-l is the offset of the rune just decoded, between 0 and len(input)",
+	"strutil.splitWord:slice#2":                          "same offset of the rune just decoded",
+	"strutil.splitWord:slice#3":                          "same",
+	"strutil.splitWord:slice#4":                          "same",
+	"strutil.splitWord:slice#10":                         "same, in the double-quote scan",
+	"strutil.splitWord:slice#12":                         "same, minus the l2 bytes of the escaped character decoded from cur just before (l2 is 0 at the end of the string)",
+	"strutil.switchHexa:slice#0":                         "match is a non-empty match of a pattern that requires the two characters 0x / 0X: len(match) >= 2",
+	"strutil.switchHexa:slice#1":                         "prefix is match[:2]: len(prefix) == 2 <= len(number) == len(match)",
+	"strutil.switchHexa:index#0":                         "the same compiled pattern just matched the same string (FindString returned a non-empty match), so FindStringIndex returns its two offsets, 0 <= begin <= end <= len (regexp guarantee)",
+	"strutil.switchHexa:index#1":                         "the same compiled pattern just matched the same string (FindString returned a non-empty match), so FindStringIndex returns its two offsets, 0 <= begin <= end <= len (regexp guarantee)",
+	"strutil.switchBinary:slice#0":                       "match is a non-empty match of a pattern that requires the two characters 0b / 0B: len(match) >= 2",
+	"strutil.switchBinary:slice#1":                       "prefix is match[:2]",
+	"strutil.switchBinary:index#0":                       "the same compiled pattern just matched the same string (FindString returned a non-empty match), so FindStringIndex returns its two offsets, 0 <= begin <= end <= len (regexp guarantee)",
+	"strutil.switchBinary:index#1":                       "the same compiled pattern just matched the same string (FindString returned a non-empty match), so FindStringIndex returns its two offsets, 0 <= begin <= end <= len (regexp guarantee)",
+	"strutil.switchDecimal:index#0":                      "the same compiled pattern just matched the same string (FindString returned a non-empty match), so FindStringIndex returns its two offsets, 0 <= begin <= end <= len (regexp guarantee)",
+	"strutil.switchDecimal:index#1":                      "the same compiled pattern just matched the same string (FindString returned a non-empty match), so FindStringIndex returns its two offsets, 0 <= begin <= end <= len (regexp guarantee)",
+	"strutil.switchDecimal:index#2":                      "match is a non-empty substring of word: word is not empty",
+	"strutil.switchBoolean:index#0":                      "the same compiled pattern just matched the same string (FindString returned a non-empty match), so FindStringIndex returns its two offsets, 0 <= begin <= end <= len (regexp guarantee)",
+	"strutil.switchBoolean:index#1":                      "switched is a value of the literal map above (found: done is true), none of which is empty",
+	"strutil.switchBoolean:slice#1":                      "same non-empty literal",
+	"strutil.switchOperator:index#0":                     "switched is a value of the literal map above (found: done is true), none of which is empty",
+	"strutil.switchOperator:slice#0":                     "same non-empty literal",
 	"(*core.Cursor).OnEmptyLine:index#2":                 "pos is compared with 0 and Len() just above; callers run it after a normaliser (CheckCommand calls CheckAppend first) or at the start of a motion, when execute's post-command check has left pos <= Len",
 	"(*core.Cursor).OnEmptyLine:index#3":                 "same: 0 < pos < Len on this path",
 	"(*core.Keys).GetCursorPos:index#2":                  "match[0] is a submatch list of rxRcvCursorPos, which has two capture groups: length 3",
@@ -528,9 +583,120 @@ func sortCallbackParams(p *Prog) func(fn *ssa.Function) []*ssa.Parameter {
 	}
 }
 
+// sortCallbackFacts: the upper-bound half of the sort contract (trusted lemma):
+// the sort package calls Less(i, j) / Swap(i, j) and the less function of
+// sort.Slice only with 0 <= i, j < Len(), and Len() is len(receiver) /
+// len(sorted slice) — checked: Len returns len(receiver), the methods have no
+// caller in the module, the closure does not store to the captured slice.
+func sortCallbackFacts(p *Prog) func(fn *ssa.Function) []zEntryFact {
+	type capt struct{ fv int }
+	closures := map[*ssa.Function]int{} // closure -> index of the free variable holding the sorted slice
+	for _, f := range p.RepoFuncs {
+		eachInstr(f, func(in ssa.Instruction) {
+			if !isCallTo(in, "sort.Slice", "sort.SliceStable") {
+				return
+			}
+			args := in.(ssa.CallInstruction).Common().Args
+			if len(args) != 2 {
+				return
+			}
+			mc, ok := args[1].(*ssa.MakeClosure)
+			if !ok {
+				return
+			}
+			fn, ok := mc.Fn.(*ssa.Function)
+			if !ok {
+				return
+			}
+			// first argument: interface made from a load of a local that the closure captures
+			var src ssa.Value = args[0]
+			if mi, ok := src.(*ssa.MakeInterface); ok {
+				src = mi.X
+			}
+			ld, ok := src.(*ssa.UnOp)
+			if !ok || ld.Op != token.MUL {
+				return
+			}
+			for k, b := range mc.Bindings {
+				if b == ld.X {
+					closures[fn] = k
+				}
+			}
+		})
+	}
+	return func(fn *ssa.Function) []zEntryFact {
+		var out []zEntryFact
+		if k, ok := closures[fn]; ok && k < len(fn.FreeVars) {
+			fv := fn.FreeVars[k]
+			stored := false
+			var loads []ssa.Value
+			eachInstr(fn, func(in ssa.Instruction) {
+				if st, ok := in.(*ssa.Store); ok && st.Addr == ssa.Value(fv) {
+					stored = true
+				}
+				if u, ok := in.(*ssa.UnOp); ok && u.Op == token.MUL && u.X == ssa.Value(fv) {
+					loads = append(loads, u)
+				}
+			})
+			if stored {
+				return nil
+			}
+			for _, prm := range fn.Params {
+				if !isIntType(prm.Type()) {
+					continue
+				}
+				for _, ld := range loads {
+					out = append(out, zEntryFact{zterm{v: prm}, zterm{v: ld, len: true}, -1})
+				}
+			}
+			return out
+		}
+		if recv := fn.Signature.Recv(); recv != nil && (fn.Name() == "Less" || fn.Name() == "Swap") && len(fn.Params) == 3 {
+			if _, isSlice := fn.Params[0].Type().Underlying().(*types.Slice); !isSlice {
+				return nil
+			}
+			// no caller inside the module
+			for _, e := range p.callersOf(fn) {
+				if inRepo(e.Caller.Func) && e.Caller.Func.Synthetic == "" {
+					return nil
+				}
+			}
+			// Len() of the same type returns len(receiver)
+			lenFn := p.Func("(" + shortName(types.TypeString(fn.Params[0].Type(), nil)) + ").Len")
+			if lenFn == nil || !returnsLenOfReceiver(lenFn) {
+				return nil
+			}
+			for _, prm := range fn.Params[1:] {
+				if isIntType(prm.Type()) {
+					out = append(out, zEntryFact{zterm{v: prm}, zterm{v: fn.Params[0], len: true}, -1})
+				}
+			}
+		}
+		return out
+	}
+}
+
+func returnsLenOfReceiver(f *ssa.Function) bool {
+	ok := false
+	n := 0
+	eachInstr(f, func(in ssa.Instruction) {
+		ret, isRet := in.(*ssa.Return)
+		if !isRet || len(ret.Results) != 1 {
+			return
+		}
+		n++
+		if cl, isCall := ret.Results[0].(*ssa.Call); isCall {
+			if b, isB := cl.Call.Value.(*ssa.Builtin); isB && b.Name() == "len" && len(f.Params) > 0 && cl.Call.Args[0] == ssa.Value(f.Params[0]) {
+				ok = true
+			}
+		}
+	})
+	return ok && n == 1
+}
+
 // inBoundsScope: the packages whose index / slice sites the prover must discharge.
-// inputrc is proved under C12; internal/completion is left out (its grid
-// arithmetic is the C15 problem: positions computed from run-time widths).
+// inputrc is proved under C12; of internal/completion, the menu grid is left
+// out (gridFunction: the C15 problem, positions computed from run-time widths).
 func inBoundsScope(path string) bool {
 	if path == modPath {
 		return true
@@ -543,17 +709,39 @@ func inBoundsScope(path string) bool {
 	return false
 }
 
-var boundsScopePkgs = []string{"/internal/core"}
+// gridFunction: the completion menu's grid (rows x columns of candidates, the
+// selector moving in it, the column widths): its indices are bounded by class
+// invariants of completion.group (rows non-empty, maxY == len(rows), posX inside
+// the row, one width per column) that no local argument shows — the C15 problem.
+// These functions are out of the prover's scope, and said so in DESIGN.md §13.
+func gridFunction(f *ssa.Function) bool {
+	root := f
+	for root.Parent() != nil {
+		root = root.Parent()
+	}
+	n := fnName(root)
+	if strings.HasPrefix(n, "(*completion.group).") {
+		return true
+	}
+	switch n {
+	case "(*completion.Engine).renderCompletions", "(*completion.Engine).highlightDesc", "(*completion.Engine).highlightDisplay",
+		"(*completion.Engine).justifyGroups", "completion.createRow", "completion.createGrid":
+		return true
+	}
+	return false
+}
+
+var boundsScopePkgs = []string{"/internal/core", "/internal/history", "/internal/keymap", "/internal/macro", "/internal/editor", "/internal/display", "/internal/ui", "/internal/term", "/internal/color", "/internal/strutil", "/internal/completion"}
 
 func checkC01Nonneg(c *Ctx) {
 	p, r := c.P, c.R
-	r.Rule("C01.nonneg", "K9", "no index expression or slice bound of the commands (root package) and of the editing primitives (internal/core) can be negative: lower-bound proof by zone-domain abstract interpretation with contracts, state getters (Cursor.Pos, Line.Len) and integer field invariants; sites resting on an invariant outside the domain are in a reviewed table with the reason", 300)
+	r.Rule("C01.nonneg", "K9", "no index expression or slice bound of the module (outside inputrc, proved under C12, and the completion menu grid) can be negative: lower-bound proof by zone-domain abstract interpretation with contracts, state getters (Cursor.Pos, Line.Len) and integer field invariants; sites resting on an invariant outside the domain are in a reviewed table with the reason", 300)
 	chk := map[string]int64{}
 	for _, ci := range classInvariants {
 		chk[ci.tn+"."+ci.fld] = ci.lb
 	}
 	r.Rule("C01.bounds", "K9", "beyond non-negativity: every index of the commands and editing primitives is below the length of what it indexes, and every slice has low <= high <= length — proved with heap length terms for the shared line (Line.Len() == len(*line), Cursor.Pos() <= Len, clamps), or listed in a reviewed table with the reason", 300)
-	z := &zoneEngine{p: p, contracts: coreContracts(), fieldMinLen: map[string]int64{}, useGetters: true, useHeap: true, fieldLB: nonnegFieldLB, fieldLBCheck: chk, entryNonneg: sortCallbackParams(p)}
+	z := &zoneEngine{p: p, contracts: coreContracts(), fieldMinLen: map[string]int64{}, useGetters: true, useHeap: true, fieldLB: nonnegFieldLB, fieldLBCheck: chk, entryNonneg: sortCallbackParams(p), entryFacts: sortCallbackFacts(p)}
 	seenRevB := map[string]bool{}
 	seenReviewed := map[string]bool{}
 	nProved, nReviewed := 0, 0
@@ -563,7 +751,7 @@ func checkC01Nonneg(c *Ctx) {
 		if pk == nil && f.Parent() != nil {
 			pk = f.Parent().Pkg
 		}
-		if len(f.Blocks) == 0 || pk == nil || !inBoundsScope(pk.Pkg.Path()) {
+		if len(f.Blocks) == 0 || pk == nil || !inBoundsScope(pk.Pkg.Path()) || gridFunction(f) {
 			continue
 		}
 		if f.Synthetic != "" {
@@ -614,7 +802,8 @@ func checkC01Nonneg(c *Ctx) {
 				switch {
 				case o.OK:
 					r.OK("C01.bounds", key, p.IPos(o.In), "proved")
-				case reviewedBounds[key] != "":
+				case reviewedBounds[key] != "" && (!strings.HasPrefix(reviewedBounds[key], upperProvedTag) || o.UpperOK):
+					// an entry tagged [upper proved] excuses the ordering clause only: the `<= len` clause must be proved
 					seenRevB[key] = true
 					r.OK("C01.bounds", key, p.IPos(o.In), "reviewed: "+reviewedBounds[key])
 				default:
